@@ -3,7 +3,10 @@ package main
 import (
 	"fmt"
 	"go/types"
+	"sort"
 	"strings"
+
+	"golang.org/x/tools/go/ssa"
 )
 
 func init() {
@@ -120,7 +123,7 @@ func belowSign(cd Cond, valueT *Term, isNodeVal func(*Term) bool) int {
 func runC01(c *Ctx) {
 	R := c.R
 	R.Rule("size-cache", "Add: count+1 and exactly one insertion on every path; Remove: count-1 exactly when the node removal reported success (else nothing changes, false returned); Clear: root=nil and count=0; Len = count", 4)
-	R.Rule("ctor-complete", "every Tree value built in the package has its comparator assigned; nothing but construction overwrites it", 2)
+	R.Rule("ctor-complete", "every Tree value built in the package has its comparator assigned (a constructor that delegates hands on a non-nil comparator); nothing but construction overwrites it", 3)
 	R.Rule("clone-detached", "Clone re-inserts a walk of the receiver into a fresh tree through Add; no pointer of the receiver's nodes reaches the clone", 1)
 	R.Rule("descent-agreement", "add, find and remove take the same child for 'value below node' and the other for 'value above node'; find and remove test == before descending", 3)
 	R.Rule("walk-order", "walkPreOrder/InOrder/PostOrder visit V,L,R in their order, recursing into themselves on non-nil children; Walk*/Slice*/String dispatch to the matching walker", 10)
@@ -142,6 +145,8 @@ func runC01(c *Ctx) {
 	c01Inorder(c, a)
 	c01NullGuard(c, a)
 	c01Contains(c, a)
+	R.Rule("state-frame", "who may write: only the functions that the conservation and size rules model (add, remove, popLeftMost, the rotations, Tree.Add/Remove/Clear) store to the value, left or right of an existing node or to a tree's root, count or comparator; every other function of the package stores to none of them", 30)
+	avlFrame(c, a, "state-frame", []*types.Var{a.nValue, a.nLeft, a.nRight, a.tRoot, a.tCount, a.tCompare}, "shape/content", "inorder-conservation", "size-cache")
 }
 
 func c01SizeCache(c *Ctx, a *avlAnchors) {
@@ -433,6 +438,28 @@ func c01Ctor(c *Ctx, a *avlAnchors) {
 				}
 				if !init {
 					ok, why = false, "a Tree is built from the zero value and used without a comparator"
+				}
+			}
+		}
+		// delegation: a constructor that returns what another constructor of the package built hands that one a
+		// comparator - a parameter of its own or a function of the module (which the dependency closure then examines)
+		for _, p := range ps {
+			for _, r := range p.Rets {
+				if r.Op == "call" && strings.HasPrefix(r.Sym, "avl.") && strings.Contains(typeStr(r.Typ), "avl.Tree") {
+					callee := c.P.Func(r.Sym)
+					if callee == nil || callee.Obj.Type().(*types.Signature).Recv() != nil {
+						continue
+					}
+					builds = true
+					for k, arg := range r.Args {
+						if k < callee.Obj.Type().(*types.Signature).Params().Len() {
+							if _, isFn := callee.Obj.Type().(*types.Signature).Params().At(k).Type().Underlying().(*types.Signature); isFn {
+								if arg.IsNil() || arg.Op == "zero" {
+									ok, why = false, "delegates to "+r.Sym+" with a nil comparator"
+								}
+							}
+						}
+					}
 				}
 			}
 		}
@@ -1086,4 +1113,109 @@ func c01Conservation(c *Ctx, a *avlAnchors) {
 	if !ok {
 		o.Breaks = "elements other than the removed one silently disappear (or appear twice)"
 	}
+}
+
+// avlFrame (rule `state-frame`): who may write. The rules model the functions that change the tree - and take every
+// other function of the package (height helpers, walkers, accessors, String ...) to leave the state alone, whatever
+// path calls them. That is checked here: a function that stores to one of the given fields of a node or tree it did
+// not itself allocate must be a construct of one of the modelling rules; every other function stores to none of them.
+// Each function of the package gets one obligation.
+func avlFrame(c *Ctx, a *avlAnchors, rule string, fields []*types.Var, what string, modelRules ...string) {
+	isModel := map[string]bool{}
+	for _, r := range modelRules {
+		isModel[r] = true
+	}
+	modelled := map[string]string{}
+	for _, o := range c.R.Obs {
+		if isModel[o.Rule] {
+			name := o.Construct
+			if i := strings.Index(name, "/"); i > 0 {
+				name = name[:i]
+			}
+			if modelled[name] == "" {
+				modelled[name] = o.Rule
+			}
+		}
+	}
+	for fn, r := range c.R.Covers {
+		if isModel[r] && modelled[fn] == "" {
+			modelled[fn] = r
+		}
+	}
+	fieldName := func(o types.Object) string {
+		for _, f := range fields {
+			if sameField(o, f) {
+				return f.Name()
+			}
+		}
+		return ""
+	}
+	isStateStruct := func(t types.Type) bool {
+		if t == nil {
+			return false
+		}
+		st, ok := t.Underlying().(*types.Struct)
+		if !ok {
+			return false
+		}
+		for i := 0; i < st.NumFields(); i++ {
+			if fieldName(st.Field(i)) != "" {
+				return true
+			}
+		}
+		return false
+	}
+	for _, fi := range c.P.FuncsOfPkg("avl") {
+		var writes []string
+		unproven := ""
+		fns := append([]*ssa.Function{fi.SSA}, fi.Closures...)
+		for _, fn := range fns {
+			fp := c.An.PathsOf(fn)
+			if fp.Unproven != "" {
+				unproven = fp.Unproven
+				continue
+			}
+			for _, p := range fp.Paths {
+				for i := range p.Events {
+					e := &p.Events[i]
+					if e.Kind != "store" || e.Addr == nil {
+						continue
+					}
+					if e.Addr.Op == "faddr" && len(e.Addr.Args) == 1 {
+						if n := fieldName(e.Addr.Obj); n != "" && e.Addr.Args[0].Op != "alloc" {
+							writes = append(writes, n)
+						}
+						continue
+					}
+					if e.Addr.Op != "alloc" && e.Val != nil && isStateStruct(e.Val.Typ) {
+						writes = append(writes, "(whole struct)")
+					}
+				}
+			}
+		}
+		switch {
+		case unproven != "":
+			c.R.Unproven(rule, fi.Name, "writes", c.pos(fi), "cannot summarise paths: "+unproven)
+		case len(writes) == 0:
+			c.R.Held(rule, fi.Name, "writes", c.pos(fi), "stores to no "+what+" field of an existing node or tree")
+		case modelled[fi.Name] != "":
+			c.R.Held(rule, fi.Name, "writes", c.pos(fi), "its stores ("+strings.Join(uniqStrings(writes), ", ")+") are modelled by rule "+modelled[fi.Name])
+		default:
+			o := c.R.Refuted(rule, fi.Name, "writes", c.pos(fi), "stores to "+strings.Join(uniqStrings(writes), ", ")+" of an existing node or tree, but no rule of this check models this function as one that changes the "+what+": the other rules take every call of it to leave the tree as it was")
+			o.Breaks = "a helper, walker or accessor that silently relinks or overwrites nodes corrupts the tree behind the modelled mutators"
+		}
+	}
+}
+
+func uniqStrings(xs []string) []string {
+	seen := map[string]bool{}
+	var out []string
+	for _, x := range xs {
+		if !seen[x] {
+			seen[x] = true
+			out = append(out, x)
+		}
+	}
+	sort.Strings(out)
+	return out
 }
